@@ -154,7 +154,8 @@ func (vm *VM) convertPanic(msg any) error {
 			break
 		}
 		fallthrough
-	case OpCallNative:
+	case OpCallNative, OpReturn:
+		// OpReturn: a deferred native function called by nextCall.
 		switch msg := msg.(type) {
 		case runtimeError:
 			break
